@@ -320,6 +320,8 @@ def scenarios(tier):
       'raise_on': [4, 5]}),
     ('a listed member vanishes before it is read, then the path is deleted and re-created with the same member name',
      {'script': [['create', M0], ['delete', M0], ['delete_parent'], ['create_parent'], ['create', M0]], '_bound': 4}),
+    ('a member is deleted while a second reader is between listing and reading it',
+     {'initial': [M0, M1], 'script': [['read'], ['delete', M0], ['create', M2], ['read'], ['delete', M1]]}),
     ('second reader lists members concurrently', {'initial': [M0], 'script': [['read'], ['create', M1], ['delete', M0], ['read'], ['create', M0]]}),
   ]
   if tier == 'thorough':
